@@ -80,13 +80,13 @@ def walk(co):
                 yield x
 
 
-def dump_code(co, opc, version):
+def dump_code(co, opc, version, api=None):
     from xdis.bytecode import Bytecode
     ent = {"fields": code_fields(co)}
     try:
         bc = Bytecode(co, opc)
         ins = []
-        for i in bc:
+        for i in (bc if api is None else api.get_instructions(co)):
             av = i.argval
             if hasattr(av, "co_code"):
                 av = ["code", str(av.co_name)]
@@ -100,11 +100,11 @@ def dump_code(co, opc, version):
     except Exception as e:  # noqa
         ent["instrs_err"] = type(e).__name__ + ":" + str(e)[:100]
     try:
-        ent["labels"] = list(opc.findlabels(co.co_code, opc))
+        ent["labels"] = list(opc.findlabels(co.co_code, opc)) if api is None else list(api.findlabels(co.co_code))
     except Exception as e:  # noqa
         ent["labels_err"] = type(e).__name__
     try:
-        ent["linestarts"] = [[o, l] for o, l in opc.findlinestarts(co)]
+        ent["linestarts"] = [[o, l] for o, l in (opc.findlinestarts(co) if api is None else api.findlinestarts(co))]
     except Exception as e:  # noqa
         ent["linestarts_err"] = type(e).__name__ + ":" + str(e)[:100]
     if tuple(version) >= (3, 10) and hasattr(co, "co_lines"):
@@ -152,7 +152,11 @@ def register(op):
                 return out
             opc = get_opcode(version, ispypy)
             out["opc"] = opc.__name__.split(".")[-1]
-            out["codes"] = [dump_code(c, opc, version) for c in walk(co)]
+            api = None
+            if a.get("via_std"):
+                from xdis.std import make_std_api
+                api = make_std_api(tuple(version[:2]), "pypy" if ispypy else None)
+            out["codes"] = [dump_code(c, opc, version, api) for c in walk(co)]
             return out
         finally:
             os.unlink(path)
